@@ -559,7 +559,7 @@ func (w *vfC05World) finalCheck(ordered bool) error {
 			}
 		}
 		// rejected writers leave no trace: the history holds the acknowledged revisions and nothing else
-		for id := range doc.History {
+		for _, id := range vfSortedKeys(doc.History) {
 			if _, ok := revs[id]; !ok {
 				return fmt.Errorf("%s: final history holds revision %s which no acknowledged write created; history %v", docID, id, vfC05TreeString(doc.History))
 			}
@@ -956,16 +956,14 @@ func TestVerif_C05_Concurrent(t *testing.T) {
 		if allow {
 			mode = "mode=conflicts-allowed"
 		}
-		// with the fault store's explicit loops every CAS write attempt is in the trace: two attempts of one
-		// operation = a retry after a CAS mismatch. Over raw rosmar retries are not observable from outside.
+		// with the fault store's explicit loops every CAS write attempt is in the trace: a CAS write that
+		// failed with a CAS mismatch = a retry. Over raw rosmar retries are not observable from outside.
 		if wrap {
-			writes := map[string]int{}
 			for _, op := range w.MarkedTrace() {
 				switch op.Type {
 				case vs.OpWriteWithXattrs, vs.OpWriteTombstoneWithXattrs, vs.OpWriteResurrectionWithXattrs:
-					writes[op.Label]++
-					if writes[op.Label] > 1 {
-						world.retried = true
+					if op.Err != nil && (base.IsCasMismatch(op.Err) || errors.Is(op.Err, sgbucket.ErrKeyExists)) {
+						world.retried = true // the update loop re-runs the callback after this
 					}
 				}
 			}
